@@ -57,6 +57,15 @@ CLAIMED = {
         "DESIGN.md §4 C01",
         "exploration",
     ),
+    "C08": (
+        "Hypothesis-generated parameter values x paramstyles x statement templates; round-trip, effect model and literal-twin differential",
+        "Adversarial strings and typed edge values are bound under every paramstyle into nine statement templates; the oracle is the value "
+        "round trip, a model of the DML effect, and a differential against the same statement with harness-rendered literals on a twin "
+        "instance; executemany is compared with a loop of execute. Exploration.",
+        "The harness's literal renderer is the reference for 'correctly quoted literal'; the twin is skipped for values containing $word (C15 finding).",
+        "DESIGN.md §4 C08",
+        "exploration",
+    ),
 }
 
 NOT_YET = {}
